@@ -320,6 +320,12 @@ func (s *Session) SetEntry(pkgPath, fname string, stubs map[string]string) error
 // free) enumeration eagerly and iterates over the collected values.
 var defaultStubs = map[string]string{
 	"github.com/google/go-intervals/intervalset.mapperToIterator": "github.com/uber-go/gopatch/internal/zzverif/nd.EagerIterator",
+	"(*sync.Map).Load":          "github.com/uber-go/gopatch/internal/zzverif/nd.SyncMapLoad",
+	"(*sync.Map).Store":         "github.com/uber-go/gopatch/internal/zzverif/nd.SyncMapStore",
+	"(*sync.Map).LoadOrStore":   "github.com/uber-go/gopatch/internal/zzverif/nd.SyncMapLoadOrStore",
+	"(*sync.Map).LoadAndDelete": "github.com/uber-go/gopatch/internal/zzverif/nd.SyncMapLoadAndDelete",
+	"(*sync.Map).Delete":        "github.com/uber-go/gopatch/internal/zzverif/nd.SyncMapDelete",
+	"(*sync.Map).Range":         "github.com/uber-go/gopatch/internal/zzverif/nd.SyncMapRange",
 }
 
 var allFuncsCache map[*ssa.Function]bool
